@@ -8,6 +8,7 @@ import (
 	"sort"
 	"strings"
 	"sync"
+	"sync/atomic"
 	"testing"
 	"time"
 
@@ -46,14 +47,18 @@ type c42Conn struct {
 }
 
 type c42Case struct {
-	IdleMs     int       `json:"idle_ms"`
-	Holder     c42Conn   `json:"holder"`       // stays open; idle for 2*IdleMs+ExtraMs after wave 1 has closed
-	ExtraMs    int       `json:"extra_ms"`     //
-	Wave1      []c42Conn `json:"wave1"`        // overlap with the holder's calls
-	ProbesPct  []int     `json:"probes_pct"`   // probe connections dialled this % of the idle time-out after wave 1 closed
-	Wave2GapMs int       `json:"wave2_gap_ms"` // second wave starts this long after the holder closed (well under the time-out)
-	Wave2      []c42Conn `json:"wave2"`
-	Transports []string  `json:"transports"`
+	IdleMs  int     `json:"idle_ms"`
+	Holder  c42Conn `json:"holder"`   // stays open; idle for 2*IdleMs+ExtraMs after wave 1 has closed
+	ExtraMs int     `json:"extra_ms"` //
+	// HookRefusals scripts the server's serve-start hook: its first HookRefusals invocations fail (a transient
+	// start-up failure: the binding is not committed and the next connection re-fires the hook). One sacrificial
+	// connection per refusal is dialled, sequentially, before the first wave; the server closes each unserved.
+	HookRefusals int       `json:"hook_refusals,omitempty"`
+	Wave1        []c42Conn `json:"wave1"`        // overlap with the holder's calls
+	ProbesPct    []int     `json:"probes_pct"`   // probe connections dialled this % of the idle time-out after wave 1 closed
+	Wave2GapMs   int       `json:"wave2_gap_ms"` // second wave starts this long after the holder closed (well under the time-out)
+	Wave2        []c42Conn `json:"wave2"`
+	Transports   []string  `json:"transports"`
 }
 
 func genC42Conn(t *rapid.T, maxOpen, maxCalls int) c42Conn {
@@ -74,7 +79,11 @@ func genC42Conn(t *rapid.T, maxOpen, maxCalls int) c42Conn {
 func genC42(t *rapid.T) c42Case {
 	c := c42Case{IdleMs: rapid.IntRange(100, 400).Draw(t, "idle_ms"), ExtraMs: rapid.IntRange(20, 120).Draw(t, "extra_ms")}
 	c.Holder = genC42Conn(t, 20, 3)
+	c.HookRefusals = []int{0, 0, 1, 1, 2}[rapid.IntRange(0, 4).Draw(t, "hook_refusals")]
 	n1 := rapid.IntRange(0, 5).Draw(t, "nwave1")
+	if c.HookRefusals > 0 && n1 == 0 {
+		n1 = 1 // refusal + overlap + partial disconnect needs a first-wave connection
+	}
 	for i := 0; i < n1; i++ {
 		c.Wave1 = append(c.Wave1, genC42Conn(t, 60, 4))
 	}
@@ -131,6 +140,8 @@ type c42Listener struct {
 	retCh       chan struct{}
 	retAt       time.Time
 	retErr      error
+	hookCalls   atomic.Int64 // serve-start hook invocations
+	hookFails   atomic.Int64
 
 	mu    sync.Mutex
 	conns []*c42ConnRec
@@ -289,11 +300,18 @@ func (l *c42Listener) runConn(name string, spec c42Conn, phaseStart time.Time, h
 	return rec
 }
 
-func startListener(transport string, idle time.Duration) (*c42Listener, error) {
+func startListener(transport string, idle time.Duration, hookRefusals int) (*c42Listener, error) {
 	l := &c42Listener{transport: transport, idle: idle, retCh: make(chan struct{})}
 	srv := vgirpc.NewServer()
 	srv.SetServerID("c42-" + transport)
 	lib.RegisterScripted(srv)
+	srv.SetServeStartHook(func(vgirpc.TransportKind, map[string]bool) error {
+		if l.hookCalls.Add(1) <= int64(hookRefusals) {
+			l.hookFails.Add(1)
+			return fmt.Errorf("c42: scripted transient start-up failure")
+		}
+		return nil
+	})
 	boundCh := make(chan struct{})
 	var once sync.Once
 	switch transport {
@@ -350,7 +368,7 @@ const (
 
 func runC42One(c c42Case, transport string, out *lib.Outcome) {
 	idle := time.Duration(c.IdleMs) * time.Millisecond
-	l, err := startListener(transport, idle)
+	l, err := startListener(transport, idle, c.HookRefusals)
 	if err != nil {
 		out.Label("skipped:" + transport + "-listen")
 		out.Skipped = true
@@ -358,6 +376,16 @@ func runC42One(c c42Case, transport string, out *lib.Outcome) {
 	}
 	if l.path != "" {
 		defer os.RemoveAll(filepath.Dir(l.path))
+	}
+	// sacrificial connections: each makes the serve-start hook fail once and is closed unserved by the server
+	for i := 0; i < c.HookRefusals; i++ {
+		l.runConn(fmt.Sprintf("%s-refused-%d", transport, i), c42Conn{Calls: []c42Call{{}}}, time.Now(), nil, false)
+	}
+	if int(l.hookFails.Load()) != c.HookRefusals {
+		// a sacrificial dial did not reach the hook: the scripted refusals would leak into the waves
+		out.Label("skipped:" + transport + "-refusals-not-consumed")
+		out.Skipped = true
+		return
 	}
 	start := time.Now()
 	var wave1 sync.WaitGroup
@@ -460,7 +488,7 @@ func judgeC42(c c42Case, tr string, l *c42Listener, conns []*c42ConnRec, modes [
 		}
 	}
 	var firstClose time.Time
-	served := 0
+	served, refused := 0, 0
 	for _, r := range conns {
 		if r.DialErr != "" {
 			if strings.Contains(r.DialErr, "timeout") {
@@ -479,11 +507,23 @@ func judgeC42(c c42Case, tr string, l *c42Listener, conns []*c42ConnRec, modes [
 				return
 			}
 		}
-		if !r.CloseBegin.IsZero() && (firstClose.IsZero() || r.CloseBegin.Before(firstClose)) {
-			firstClose = r.CloseBegin
-		}
 		fr, ok := r.firstResp()
+		// earliest instant at which the server can have seen this connection go away: for a served connection the
+		// moment the client began closing it; an unserved one (refused by the serve-start hook) was closed by the
+		// server at some unknown time after it was dialled
+		closeLB := r.CloseBegin
 		if !ok {
+			closeLB = r.DialStart
+		}
+		if !closeLB.IsZero() && (firstClose.IsZero() || closeLB.Before(firstClose)) {
+			firstClose = closeLB
+		}
+		if !ok {
+			if strings.Contains(r.Name, "-refused-") {
+				// expected: the scripted hook failure; it never counts as an open connection
+				refused++
+				continue
+			}
 			if len(r.Calls) > 0 {
 				// dialled but never served: the listener was closed with this connection still in its backlog
 				setHi(r.Calls[0].RespEnd, "fresh connection "+r.Name+" never served: "+r.Calls[0].Err)
@@ -625,6 +665,22 @@ func judgeC42(c c42Case, tr string, l *c42Listener, conns []*c42ConnRec, modes [
 	if overlap && heldIdle {
 		out.NonTrivial = true
 	}
+	// the refusal class: after a refused connection, the holder overlapped a first-wave connection that then left,
+	// and the holder stayed open and idle for more than the time-out while a probe was dialled
+	partial := false
+	if hok {
+		for _, r := range conns {
+			if fb, ok := r.firstResp(); ok && strings.Contains(r.Name, "-w1-") && fb.Before(holder.CloseBegin) && fr.Before(r.CloseBegin) && r.CloseBegin.Before(quietStart) {
+				partial = true
+			}
+		}
+	}
+	if c.HookRefusals > 0 && refused == c.HookRefusals {
+		out.Label("hook-refused:" + tr)
+		if partial && heldIdle && probed {
+			out.Label("hook-refused-then-overlap-idle-wait", "hook-refused-then-overlap-idle-wait:"+tr)
+		}
+	}
 }
 
 func runC42(c c42Case) (out lib.Outcome) {
@@ -651,13 +707,13 @@ func runC42(c c42Case) (out lib.Outcome) {
 
 var propC42 = lib.Prop[c42Case]{
 	ID: "C42",
-	Rule: "connection schedules against real RunUnix / RunTcp listeners (idle time-out 100-400 ms): a holder connection plus 0-5 overlapping first-wave connections with 1-4 scripted u_str calls each (values, errors and logs tagged with the connection), " +
+	Rule: "connection schedules against real RunUnix / RunTcp listeners (idle time-out 100-400 ms): the serve-start hook failing its first 0-2 invocations (one sacrificial connection each, closed unserved, before the first wave), a holder connection plus 0-5 overlapping first-wave connections with 1-4 scripted u_str calls each (values, errors and logs tagged with the connection), " +
 		"the holder then idle for more than 2x the time-out while 1-2 probe connections are dialled and served, a second wave 0..timeout/4 after the holder closes, then everything closed. " +
 		"Oracle: each connection reads exactly its own modelled responses; the interval in which the listener can have stopped accepting (latest served dial .. earliest refused dial / return) must contain an instant with no verifiably open connection in the preceding time-out; " +
 		"no call is served after the function returned; the function returns after the last close (15 s bound); Unix socket mode 0600 while serving, path gone after return. Non-trivial: overlapping connections and a connection held idle > 2x the time-out.",
 	Gen:          genC42,
 	Run:          runC42,
-	Essential:    []string{"overlap:unix", "overlap:tcp", "held-idle-2x:unix", "held-idle-2x:tcp", "probe-served:unix", "probe-served:tcp"},
+	Essential:    []string{"overlap:unix", "overlap:tcp", "held-idle-2x:unix", "held-idle-2x:tcp", "probe-served:unix", "probe-served:tcp", "hook-refused-then-overlap-idle-wait"},
 	EssentialMin: 10,
 	Assumptions: []string{
 		"the 60 s start-up grace is not waited for: every schedule opens its first connection immediately",
